@@ -70,6 +70,38 @@ def check(P: Project, R: Report) -> None:
                          f"`{k.arg}={ast.unparse(k.value)[:40]}` is `{raw[:60]}` as read from the file: a timeout written as a string-number (\"30\") reaches anyio's deadline arithmetic as a str, the handshake raises TypeError and that server is never initialised")
     R.extra["timeout_arguments_at_entry_points"] = n_t
 
+    # ------------------------------------------------------------------ R8: per-server values are per-server
+    R.rule("R8", "in a loop over the configured servers, whatever an iteration hands to the connector or the handshake is established in that iteration: a variable the loop body assigns on some paths only, and reads in such a call, still holds the previous server's value on the other paths")
+    n_l = 0
+    for f in sorted(P.funcs.values(), key=lambda f: f.fq):
+        if f.module.name not in ENTRY_MODULES:
+            continue
+        for loop in [x for x in walk_local(f.node) if isinstance(x, (ast.For, ast.AsyncFor))]:
+            calls_ = [c for c in walk_local(loop) if isinstance(c, ast.Call) and call_name(c).split(".")[-1] in ("send_initialize", "stdio_client", "stdio_client_with_initialize", "StdioClient", "open_process")]
+            if not calls_:
+                continue
+            n_l += 1
+            stored = {n_.id for b in loop.body for n_ in ast.walk(b) if isinstance(n_, ast.Name) and isinstance(n_.ctx, ast.Store)} | ({loop.target.id} if isinstance(loop.target, ast.Name) else set())
+            carried = {}
+
+            def lev(call, st, an, calls_=calls_, stored=stored, carried=carried):
+                if call not in calls_:
+                    return None
+                for a_ in list(call.args) + [k.value for k in call.keywords]:
+                    for n_ in ast.walk(a_):
+                        if isinstance(n_, ast.Name) and n_.id in stored and n_.id != getattr(loop.target, "id", None) and st.term(n_.id) is None:
+                            carried.setdefault(n_.id, (call, sorted(l[:50] for l in st.lits)[:4]))
+                return None
+
+            body_mod = ast.Module(body=loop.body, type_ignores=[])
+            run_paths(body_mod, event_of=lev, fallible=False)
+            for v_, (call_, lits_) in sorted(carried.items()):
+                R.ob("R8", f"{f.qual}: `{v_}` is established in the iteration that uses it", False, f"{f.module.rel}:{call_.lineno}",
+                     f"`{ast.unparse(call_)[:60]}` reads `{v_}`, which this iteration assigns only on some paths (not under {lits_}): for a server that takes the other path the value left by an earlier server is used — e.g. a later server without a timeout is handshaken under an earlier server's shorter one and abandoned")
+            if not carried:
+                R.ob("R8", f"{f.qual}: the per-server loop at line {loop.lineno} hands on only values of its own iteration", True, f"{f.module.rel}:{loop.lineno}", "", sample=f"R8 {f.qual}: loop over {ast.unparse(loop.iter)[:30]} — nothing carried over")
+    R.need(n_l >= 1, "anchor: no loop over the configured servers that connects or initialises")
+
     # ------------------------------------------------------------------ R1
     seen_entry = set()
     for c in facts["calls"]:
